@@ -752,7 +752,7 @@ mod pipeline {
 
     use crate::communicate::{self, Communicator};
     use crate::os_common::ExitStatus;
-    use crate::popen::{Popen, Redirection, Result as PopenResult};
+    use crate::popen::{Popen, PopenError, Redirection, Result as PopenResult};
 
     use super::exec::{CaptureData, Exec, InputRedirection, OutputRedirection};
 
@@ -944,7 +944,14 @@ mod pipeline {
         /// to missing output), except for the ones for which
         /// `detached()` was called.  This is equivalent to what the
         /// shell does.
-        pub fn popen(mut self) -> PopenResult<Vec<Popen>> {
+        pub fn popen(self) -> PopenResult<Vec<Popen>> {
+            // dropping the commands started before a failure waits for them
+            self.popen_started().map_err(|(err, _started)| err)
+        }
+
+        // Like `popen()`, but a failure also hands back the commands
+        // started so far, so that the caller decides when to wait for them.
+        fn popen_started(mut self) -> Result<Vec<Popen>, (PopenError, Vec<Popen>)> {
             self.check_no_stdin_data("popen");
             assert!(self.cmds.len() >= 2);
 
@@ -984,7 +991,7 @@ mod pipeline {
                         if let Some(first) = ret.first_mut() {
                             first.stdin.take();
                         }
-                        return Err(err);
+                        return Err((err, ret));
                     }
                 }
             }
@@ -1041,7 +1048,17 @@ mod pipeline {
             self = self.stderr_to(err_write);
 
             let stdin_data = self.stdin_data.take();
-            let mut v = self.stdout(Redirection::Pipe).popen()?;
+            let mut v = match self.stdout(Redirection::Pipe).popen_started() {
+                Ok(v) => v,
+                Err((err, started)) => {
+                    // A command started before the failure may be blocked
+                    // writing to the stderr pipe.  Close our end of it before
+                    // waiting for those commands, or the wait never returns.
+                    drop(err_read);
+                    drop(started);
+                    return Err(err);
+                }
+            };
             let vlen = v.len();
 
             let comm = communicate::communicate(
